@@ -207,7 +207,7 @@ def run(ctx):
     good = [r for r in recs if ver[r['id']]['ok'] and r['kind'] == 'rows' and not r['rows'][0]['flux_nan']][:4]
     bad = []
     for k, r in enumerate(good):
-        r2 = json.loads(json.dumps(r)); r2['id'] = 10**9 + k
+        r2 = core.jcopy(r); r2['id'] = 10**9 + k
         if k % 2:
             r2['rows'][0]['flux_k'] += S
         else:
